@@ -100,6 +100,11 @@ pub static PANIC_EPOCH: [AtomicU64; 64] = {
     [Z; 64]
 };
 
+thread_local! {
+    /// "file:line" of the most recent panic raised on this thread (set by the panic hook)
+    pub static LAST_PANIC_LOC: std::cell::RefCell<String> = const { std::cell::RefCell::new(String::new()) };
+}
+
 /// lane of the current thread, from its name ("lane-<n>" or "vpool-<lane>-<size>-<i>")
 pub fn lane_of_current_thread() -> Option<usize> {
     let t = std::thread::current();
